@@ -57,8 +57,11 @@ def generate(seed, length=None):
     rng = random.Random(seed)
     cfg = {"g90e": rng.random() < 0.3, "enter": ["M117 ENTER"] if rng.random() < 0.3 else [],
            "exit": ["M117 EXIT"] if rng.random() < 0.3 else [],
-           "xg": {"M204": "merge", "M117": "last", "G4": "exclude", "M205": "first"}
-           if rng.random() < 0.5 else {}, "at": None}
+           "xg": rng.choice([{"M204": "merge", "M117": "last", "G4": "exclude", "M205": "first"},
+                             {"M204": "merge", "M117": "last", "G4": "exclude", "M205": "first"},
+                             {"M117": "merge", "M118": "merge", "M204": "first", "M73": "merge"},
+                             {"M117": "first", "M118": "last", "M204": "merge"}])
+           if rng.random() < 0.6 else {}, "at": None}
     prog = gen_motion.Program(cfg, seed)
     steps = []
     gen = gen_motion.MotionGen(seed)
@@ -82,6 +85,15 @@ def generate(seed, length=None):
                 "G2 X10 Y10 I1 J0", "G3 I0 J2", "G2 X10 Y10 R5", "G2 X20 Y10 R1", "G3 X20 Y10 R-5",
                 "G2 X20 Y10 R5 I1 J1", "G3 X10.0 Y10.0 I0 J0", "G2 X10 Y12 I0 J1", "G2 R0 X5",
                 "G3 X9 Y10 I0.5 J0", "G2 I1e5 J0", "G2 X10 Y10 I-0.0 J0.0"]), {}))
+        elif rng.random() < 0.08:
+            # commands whose argument is free text (display / host messages), met inside the
+            # region so that a configured deferred mode has to store and re-issue them
+            steps.append(("g", "G1 X35 Y35", {}))
+            for _ in range(rng.choice([1, 1, 2])):
+                steps.append(("g", rng.choice(["M117", "M118", "M73", "M204"]) + " " + rng.choice([
+                    "Hello", "Layer 3 of 20", "E1 echo", "Speed 1e5", "done", "ETA 1h 5m",
+                    "P25 R10", "S500", "heating...", "X", "-", "Temp: 200/210", "e", "E"]), {}))
+            steps.append(("g", rng.choice(["G1 X10 Y10", "G1 X10 Y10 E1", "G0 X5"]), {}))
         elif rng.random() < 0.25:
             steps.append(("g", rng.choice(["G1 X35 Y35", "G1 X10 Y10 E1", "G1 X35 Y35 E-1",
                                            "G1 E-2", "G1 E2", "G10", "G11", "G1 Z1"]), {}))
